@@ -46,7 +46,7 @@ def run(repo, chk):
     from .c05 import guard_of, released_under_guard
     oen, oex = repo.func("overlay.BaseOverlay.__enter__"), repo.func("overlay.BaseOverlay.__exit__")
     g1, g2 = guard_of(oen.node, "set", ctxvars), guard_of(oex.node, "reset", ctxvars)
-    okr, pathr, nrel = released_under_guard(oex, f"ctxvar:{[c for c in ctxvars if 'current' in c][0]}", ctxvars)
+    okr, pathr, nrel = released_under_guard(oex, f"ctxvar:{[c for c in ctxvars if 'current' in c][0]}", ctxvars, g1)
     chk.ob("R09.2", "overlay.BaseOverlay.__exit__:always-restores-what-__enter__-installed", okr and g1 is not None and g1 == g2, oex.where,
            f"leaving an overlay's with-block restores the previous collection whenever entering it installed one (guards `{g1}` / `{g2}`), whatever is current at that moment: "
            "a suspended generator started inside the block must not keep the ended overlay's handlers installed")
